@@ -32,7 +32,7 @@ import (
 )
 
 type Case struct {
-	Kind   string // clean | join | extract | artifact | digestop | digest
+	Kind   string // clean | join | extract | artifact | digestop | digest | import
 	A, B   string `json:",omitempty"`
 	Unpack bool   `json:",omitempty"`
 	Strip  bool   `json:",omitempty"`
@@ -249,6 +249,8 @@ func runCaseRaw(c Case, e *env, res *lib.Result) string {
 			return ""
 		}
 		return fmt.Sprintf("CExtract %s %s %s", lib.CoqStr(out), lib.CoqStr(c.A), lib.CoqStr(want))
+	case "import":
+		return runImport(ctx, c, e, res)
 	case "artifact":
 		title := c.A
 		tag, enc, err := e.pushArtifact(title, c.Unpack)
@@ -309,6 +311,95 @@ func runCaseRaw(c Case, e *env, res *lib.Result) string {
 	case "digestop":
 		return runDigestOp(ctx, c, e, res)
 	}
+	return ""
+}
+
+// runImport: ImageImport of a hand-made archive into a layout inside the guard directory.  The archive is an OCI layout
+// whose index.json names a manifest by the hostile digest c.A (when it has the digest form) and which carries entries
+// with the hostile name c.B as a file, as a directory, behind a symlink and as a link target.  Whatever the import
+// answers, nothing outside the target layout may appear, change or be read.
+func runImport(ctx context.Context, c Case, e *env, res *lib.Result) string {
+	trap := filepath.Join(e.guard, "deep", "trap")
+	victim := filepath.Join(e.guard, "deep", "victim")
+	_ = os.Remove(trap)
+	_ = syscall.Mkfifo(trap, 0o644)
+	_ = os.WriteFile(victim, []byte("do not touch"), 0o644)
+	tgt := filepath.Join(e.guard, "deep", "imp")
+	_ = os.RemoveAll(tgt)
+	layer := []byte("layer-bytes")
+	cfg := []byte(`{"architecture":"amd64","os":"linux","rootfs":{"type":"layers","diff_ids":[]}}`)
+	dg := func(b []byte) string { return digest.FromBytes(b).String() }
+	man, _ := json.Marshal(map[string]any{"schemaVersion": 2, "mediaType": "application/vnd.oci.image.manifest.v1+json",
+		"config": map[string]any{"mediaType": "application/vnd.oci.image.config.v1+json", "digest": dg(cfg), "size": len(cfg)},
+		"layers": []any{map[string]any{"mediaType": "application/vnd.oci.image.layer.v1.tar", "digest": dg(layer), "size": len(layer)}}})
+	manDig := dg(man)
+	entryDig := manDig
+	if strings.Contains(c.A, ":") {
+		entryDig = c.A // the index names the image by a hostile digest
+	}
+	idx, _ := json.Marshal(map[string]any{"schemaVersion": 2, "mediaType": "application/vnd.oci.image.index.v1+json",
+		"manifests": []any{map[string]any{"mediaType": "application/vnd.oci.image.manifest.v1+json", "digest": entryDig, "size": len(man),
+			"annotations": map[string]string{"org.opencontainers.image.ref.name": "v1"}}}})
+	var buf bytes.Buffer
+	tw := tar.NewWriter(&buf)
+	file := func(name string, b []byte) {
+		if tw.WriteHeader(&tar.Header{Name: name, Typeflag: tar.TypeReg, Mode: 0o644, Size: int64(len(b))}) == nil {
+			_, _ = tw.Write(b)
+		}
+	}
+	file("oci-layout", []byte(`{"imageLayoutVersion":"1.0.0"}`))
+	file("index.json", idx)
+	path := func(d string) string { return "blobs/" + strings.Replace(d, ":", "/", 1) }
+	if c.B != "" {
+		_ = tw.WriteHeader(&tar.Header{Name: c.B, Typeflag: tar.TypeDir, Mode: 0o755})
+		file(c.B, []byte("hostile entry"))
+		_ = tw.WriteHeader(&tar.Header{Name: "blobs/lnk", Typeflag: tar.TypeSymlink, Linkname: c.B, Mode: 0o777})
+		file("blobs/lnk/x", []byte("through a link"))
+		_ = tw.WriteHeader(&tar.Header{Name: path(dg(layer)), Typeflag: tar.TypeSymlink, Linkname: c.B, Mode: 0o777})
+	}
+	file(path(entryDig), man)
+	file(path(manDig), man)
+	file(path(dg(cfg)), cfg)
+	file(path(dg(layer)), layer)
+	_ = tw.Close()
+	r, err := ref.New("ocidir://" + tgt + ":v1")
+	if err != nil {
+		return ""
+	}
+	before := snapshot(e.guard)
+	done := make(chan error, 1)
+	go func() {
+		defer func() {
+			if p := recover(); p != nil {
+				done <- fmt.Errorf("panic: %v", p)
+			}
+		}()
+		done <- e.rc.ImageImport(ctx, r, bytes.NewReader(buf.Bytes()))
+	}()
+	var ierr error
+	select {
+	case ierr = <-done:
+	case <-time.After(10 * time.Second):
+		res.Fail("import-did-not-terminate", fmt.Sprintf("ImageImport with index digest %q and entry %q still running after 10s", c.A, c.B), c)
+		return ""
+	}
+	if ierr != nil && strings.HasPrefix(ierr.Error(), "panic:") {
+		res.Fail("implementation-panicked", fmt.Sprintf("ImageImport with index digest %q and entry %q: %v", c.A, c.B, ierr), c)
+	}
+	if f, oerr := os.OpenFile(trap, os.O_WRONLY|syscall.O_NONBLOCK, 0); oerr == nil {
+		_ = f.Close()
+		res.Fail("import-reads-outside", fmt.Sprintf("ImageImport with index digest %q and entry %q opened a file outside the layout", c.A, c.B), c)
+	}
+	_ = e.rc.Close(ctx, r)
+	after := snapshot(e.guard)
+	outside, _ := diffOutside(before, after, "deep/imp")
+	if len(outside) > 0 {
+		res.Fail("import-writes-outside", fmt.Sprintf("ImageImport with index digest %q and entry %q changed %v outside the target layout", c.A, c.B, outside), c)
+	}
+	if b, rerr := os.ReadFile(victim); rerr != nil || string(b) != "do not touch" {
+		res.Fail("import-writes-outside", fmt.Sprintf("ImageImport with index digest %q and entry %q damaged a file outside the layout", c.A, c.B), c)
+	}
+	res.Count(fmt.Sprintf("import:err=%v", ierr != nil))
 	return ""
 }
 
@@ -446,7 +537,7 @@ func hostileDigest(r *lib.Rand) string {
 
 func Run(o lib.Opts) {
 	res := lib.NewResult("C20", o.Tier, o.Seed)
-	res.Rule = "one splitmix64 stream: hostile path strings (.., ., empty and long components, absolute, doubled and back slashes, NUL) for path.Clean / filepath.Join; tar archives with a hostile directory entry plus symlink/hardlink/file companions for archive.Extract; artifacts with hostile title annotations fetched by the real `regctl artifact get` (with/without --strip-dirs, unpack); every layout operation taking a digest with hostile digests (FIFO trap detects reads, victim file detects deletes); digest.Validate; non-trivial = input containing '..' or an absolute path; distinct by case"
+	res.Rule = "one splitmix64 stream: hostile path strings (.., ., empty and long components, absolute, doubled and back slashes, NUL) for path.Clean / filepath.Join; tar archives with a hostile directory entry plus symlink/hardlink/file companions for archive.Extract; artifacts with hostile title annotations fetched by the real `regctl artifact get` (with/without --strip-dirs, unpack); every layout operation taking a digest with hostile digests (FIFO trap detects reads, victim file detects deletes); ImageImport of hand-made archives into a layout (index naming the image by a hostile digest; entries with hostile names as file, directory, symlink target and behind a symlink); digest.Validate; non-trivial = input containing '..' or an absolute path; distinct by case"
 	e := newEnv(o)
 	if o.Replay != "" {
 		var f struct{ Case Case }
@@ -489,6 +580,18 @@ func Run(o lib.Opts) {
 		for _, d := range []string{"sha256:../../../trap", "sha256:../../../victim", "sha256:../../trap"} {
 			all = append(all, Case{Kind: "digestop", Op: op, A: d})
 		}
+	}
+	for _, d := range []string{"", "sha256:../../../trap", "sha256:../../../victim", "sha256:../../victim", "../../victim"} {
+		for _, b := range []string{"", "../../victim", "../victim", "/tmp/c20-abs-victim", "blobs/sha256/../../../victim", "../trap"} {
+			all = append(all, Case{Kind: "import", A: d, B: b})
+		}
+	}
+	for i := 0; i < o.Scale(80, 1500); i++ {
+		d := ""
+		if r.Chance(50) {
+			d = hostileDigest(r)
+		}
+		all = append(all, Case{Kind: "import", A: d, B: hostilePath(r)})
 	}
 	for i := 0; i < nPure; i++ {
 		switch r.Intn(5) {
